@@ -33,8 +33,8 @@ type PlantC09 struct {
 	Text string `json:"text"` // raw line without the line terminator
 }
 
-var plantNames = []string{"oats", "x", "сирене", "rice/white", "a_b"}
-var plantBadValues = []string{"abc", "12g", "1,5", "1..2", "--", "1e", "0x", "twelve"}
+var plantNames = []string{"oats", "x", "сирене", "rice/white", "a_b", "milk/2%", "50%s"}
+var plantBadValues = []string{"abc", "12g", "1,5", "1..2", "--", "1e", "0x", "twelve", "2%", "%d"}
 
 func genC09(thorough bool) func(t *rapid.T) Case {
 	return func(t *rapid.T) Case {
@@ -196,6 +196,16 @@ func (c *CaseC09) Eval(ob *Obs) []Finding {
 		}
 		if firstMsg == "" {
 			firstMsg = r.Err
+			// real-binary arm: what the user reads is what main() prints. A sample of the worlds is run by the
+			// uninstrumented binary on real files; its standard error must quote the same line and number.
+			if realBin != "" && verifsim.HashString(hashOf(c.Plants)+sh)%8 == 0 {
+				rr := runReal(mkWorld(iv), "")
+				ob.count("real_binary_runs", 1)
+				if !rr.failed || !mentionsLine(rr.stderr, nums[0], texts[0]) {
+					out = append(out, Finding{"C09 real-binary-error-does-not-name-first-bad-line cmd=" + sh + " file=" + c.Target,
+						fmt.Sprintf("first malformed line is %d %q; the real binary exited non-zero=%v and wrote %q", nums[0], texts[0], rr.failed, short(rr.stderr, 300))})
+				}
+			}
 		}
 	}
 	for _, silent := range []bool{false, true} {
